@@ -13,6 +13,8 @@ ENGINES = [
      "kind_free_text": "runtime monitor: multi-threaded scenarios (main thread owning the host + reader threads on tagged snapshots, seeded sleeps/yields); offline checker compares every recorded answer with a sequential fresh analysis of the tagged version; cancellation/promptness accounting"},
     {"name": "m_sema", "path": "harness/vh/src/bin/m_sema.rs", "serves_properties": ["C05", "C06", "C07", "C08", "C18"],
      "kind_free_text": "runtime monitor: scope-aware generated workspaces (ground truth recorded by the generator's sidecar) loaded into ide::AnalysisHost; by-construction binding oracle (C05), refs<=>goto census law (C06), rename + fresh re-analysis isomorphism (C07), rename refusal reference table over three packages (C08), completion scope sets and accept-and-resolve (C18)"},
+    {"name": "m_types", "path": "harness/vh/src/bin/m_types.rs", "serves_properties": ["C09"],
+     "kind_free_text": "runtime monitor: type-directed generated well-typed workspaces (vh::tgen; the type of every binder is known by construction) loaded into ide::AnalysisHost; hover at every binder/function is compared with the constructed type, polymorphic helpers up to renaming"},
     {"name": "m_robust", "path": "harness/vh/src/bin/m_robust.rs", "serves_properties": ["C10", "C20"],
      "kind_free_text": "runtime monitor: all-offsets x all-query-kinds sweep over generated, corpus and damaged workspaces loaded into ide::AnalysisHost; panic/abort monitor (C10) and range-validity monitor (C20) over the same executions"},
     {"name": "m_gram", "path": "harness/vh/src/bin/m_gram.rs", "serves_properties": ["C03", "C04"],
@@ -58,6 +60,15 @@ META = {
                        "Found and repaired: `<=.` operator kind, slot-confusing accessors (Param::ty, StmtLet::body), string-prefix pattern tree."),
         "design_ref": "DESIGN.md §5 C04",
         "level_note": "Supported surface = the generator's grammar (listed in evidence.assumptions); the reference precedence table is Gleam's, transcribed by hand.",
+    },
+    "C09": {
+        "technique": "by-construction type oracle: hover at every binder and function of a type-directed generated well-typed workspace vs. the type the generator built it for; polymorphic helpers vs. hand-written principal types up to renaming",
+        "level_text": ("Exploration: ~10^7 hover comparisons per quick run over ~2x10^5 well-typed multi-module workspaces covering literals, operators, tuples/indexing, lists/spreads, Result/Bool/Nil, generic custom types, "
+                       "field access, shuffled labelled arguments, lambdas, captures, pipelines (also into generic helpers), use, multi-subject case, aliases, cross-module calls, forward references, recursion groups and "
+                       "locals spelled like functions. Found and repaired: `!=`/`&&`/`||` untyped; recursion groups inferred against undeclared signatures (label order, recursive pipe); use callback inferred before its call; "
+                       "lambda arguments inferred before unification with the callee; pipe into a call ignoring all but the first argument; field types resolved in the accessing module."),
+        "design_ref": "DESIGN.md §5 C09",
+        "level_note": "Trusted base: the generator's typing rules (each production audited to yield exactly its target as principal type) and the type printer `show`. Module constants and annotations on let/lambda parameters are outside the generator.",
     },
     "C10": {
         "technique": "all-offsets x all-queries sweep under a panic/abort monitor (catch_unwind + panic hook, 2 MiB stack, write-ahead journal for process deaths)",
